@@ -57,6 +57,67 @@ def wrap(stmt, where):
     return stmt
 
 
+def expr_grammar(depth, thorough=False):
+    """every C expression up to the given depth over the leaves x, y, 1 and one constructor of each kind
+    (bounded-exhaustive: the templates above are hand-picked, this is not)"""
+    leaves = ['x', 'y', '1']
+    level = list(leaves)
+    allx = list(leaves)
+    for _ in range(depth - 1):
+        nxt = []
+        for e in level:
+            for op in ('-', '+', '!', '~', '++', '--', 'sizeof', '*', '&'):
+                nxt.append(f'sizeof({e})' if op == 'sizeof' else f'{op}({e})')
+            nxt += [f'({e})++', f'({e})--', f'(int)({e})', f'f({e})', f'a[{e}]', f'({e})[1]']
+            for e2 in leaves:
+                for op in ('+', '*', '<', '&&'):
+                    nxt.append(f'({e}) {op} {e2}')
+                    if e not in leaves:
+                        nxt.append(f'{e2} {op} ({e})')
+                nxt.append(f'({e}) ? {e2} : z')
+                nxt.append(f'z ? ({e}) : {e2}')
+                nxt.append(f'({e}, {e2})')
+                if e in ('x', 'y') or e.startswith('a[') or e.startswith('*'):
+                    nxt.append(f'{e} = {e2}')
+                    nxt.append(f'{e} += {e2}')
+                if e2 in ('x', 'y'):
+                    nxt.append(f'{e2} = ({e})')
+        # de-duplicate, keep order
+        seen, level = set(allx), []
+        for e in nxt:
+            if e not in seen:
+                seen.add(e)
+                level.append(e)
+        allx += level
+        if not thorough and len(allx) > 400:
+            break
+    return allx
+
+
+def grammar_programs(thorough):
+    """each expression of the grammar in every expression position of a statement"""
+    out = []
+    exprs = expr_grammar(3 if thorough else 2, thorough)
+    if thorough:
+        # depth 3 is large: keep every expression with an effect below a wrapper, sample the rest deterministically
+        eff = [e for e in exprs if any(t in e for t in ('++', '--', '=')) and '==' not in e]
+        rest = [e for e in exprs if e not in set(eff)]
+        exprs = eff[:2500] + rest[::7]
+    sig = 'int f(int x,int y,int z,int *a,int n,int i)'
+    for e in exprs:
+        out.append(f'{sig}{{ {e}; }}')
+        out.append(f'{sig}{{ z = {e}; }}')
+        out.append(f'{sig}{{ if ({e}) {{ z = x + y; }} }}')
+        out.append(f'{sig}{{ while ({e}) {{ z = z + y; }} }}')
+        out.append(f'{sig}{{ return {e}; }}')
+        if thorough:
+            out.append(f'{sig}{{ do {{ z = z + y; }} while ({e}); }}')
+            out.append(f'{sig}{{ for (i = 0; {e}; i++) {{ z = z + y; }} }}')
+            out.append(f'{sig}{{ z = -({e}); }}')
+            out.append(f'{sig}{{ z = x + ({e}); }}')
+    return out
+
+
 def templates():
     out = []
     for st in STMTS:
@@ -123,7 +184,8 @@ def observe(fnode):
 
 def run(ctx):
     rng = ctx.rng
-    srcs = templates()
+    srcs = templates() + grammar_programs(ctx.tier == 'thorough')
+    ctx.extra['grammar_programs'] = len(srcs)
     ctx.extra['templates'] = len(srcs)
     for i in range(ctx.budget(80, 3000)):
         g = Gen(rng, Opts(sugar=True, edge=True, unsupported=(i % 3 == 0), max_bin=5, max_stmts=3))
